@@ -4,9 +4,9 @@
    Every <op> is replayed on the model executor it names; the model's state is then rendered in
    the format of the real dump and compared as a string (refcounts, freed, free, pending_free,
    constant cache, bytes of every live slot, and the full value skeleton of every process).
-   The model is run as the code is found (fx = false); if that disagrees, as the code is after
-   hooks/fix_F9.patch (fx = true).
-   stdout: (agree <ops> unfixed|fixed) | (disagree (op k) <op> (model ..) (real ..)) | (empty) *)
+   The model is run as the code is found; if that disagrees, as the code is after
+   hooks/fix_F9.patch and/or hooks/fix_F46.patch (so the check survives the repairs landing).
+   stdout: (agree <ops> unfixed|f9fixed|f46fixed|f9f46fixed) | (disagree (op k) <op> (model ..) (real ..)) | (empty) *)
 open Heap_model
 
 let rec nat_of_int n = if n <= 0 then O else S (nat_of_int (n - 1))
@@ -184,12 +184,12 @@ let show_outcome = function
   | Val _ -> "(val)"
 
 (* run one op on the model; returns the executor index it touched *)
-let run_op (fx : bool) (prog : hprogram) (xs : exec array) (op : Sexp.t) : int =
+let run_op (fx : bool) (f46 : bool) (prog : hprogram) (xs : exec array) (op : Sexp.t) : int =
   let get = function Val a -> a | o -> raise (Model_stop (show_outcome o)) in
   match op with
   | Sexp.List (Sexp.Atom "spawn" :: e :: pid :: fn :: pers :: Sexp.List (Sexp.Atom "caps" :: caps) :: arg :: Sexp.List (Sexp.Atom "heap" :: data) :: []) ->
     let e = ios e in
-    xs.(e) <- get (spawn_process xs.(e) (nos pid) (Some (nos fn)) (List.map value_of caps) (value_of arg) (heap_of data) (ios pers = 1)); e
+    xs.(e) <- get ((if f46 then spawn_process_f46 else spawn_process) xs.(e) (nos pid) (Some (nos fn)) (List.map value_of caps) (value_of arg) (heap_of data) (ios pers = 1)); e
   | Sexp.List [Sexp.Atom "nspawn"; e; caller; pv] ->
     let e = ios e in
     xs.(e) <- get (notify_spawn xs.(e) (nos caller) (value_of pv)); e
@@ -231,14 +231,14 @@ let run_op (fx : bool) (prog : hprogram) (xs : exec array) (op : Sexp.t) : int =
     xs.(e) <- get (exec_step fx prog xs.(e) pid (S O) [ext] ext); e
   | _ -> failwith ("bad op " ^ Sexp.to_string op)
 
-let replay (fx : bool) (items : Sexp.t list) : (int, string) result =
+let replay (fx : bool) (f46 : bool) (items : Sexp.t list) : (int, string) result =
   match items with
   | Sexp.List (Sexp.Atom "prog" :: pf) :: Sexp.List [Sexp.Atom "workers"; k] :: ops ->
     let prog = program_of pf in
     let xs = Array.make (ios k) { x_heap = empty_heap; x_procs = [] } in
     let rec go n = function
       | op :: dump :: rest ->
-        (match (try Ok (run_op fx prog xs op) with Model_stop m -> Error m) with
+        (match (try Ok (run_op fx f46 prog xs op) with Model_stop m -> Error m) with
          | Error m -> Error (Printf.sprintf "(op %d) %s (model %s)" n (Sexp.to_string op) m)
          | Ok e ->
            let m = show_exec xs.(e) in
@@ -260,12 +260,16 @@ let () =
             match Sexp.parse line with
             | Sexp.List (Sexp.Atom "trace" :: []) -> "(empty)"
             | Sexp.List (Sexp.Atom "trace" :: items) ->
-              (match replay false items with
+              (match replay false false items with
                | Ok n -> Printf.sprintf "(agree %d unfixed)" n
                | Error m1 ->
-                 (match replay true items with
-                  | Ok n -> Printf.sprintf "(agree %d fixed)" n
-                  | Error _ -> "(disagree " ^ m1 ^ ")"))
+                 let rec try_modes = function
+                   | [] -> "(disagree " ^ m1 ^ ")"
+                   | (fx, f46, name) :: rest ->
+                     (match replay fx f46 items with
+                      | Ok n -> Printf.sprintf "(agree %d %s)" n name
+                      | Error _ -> try_modes rest) in
+                 try_modes [(true, false, "f9fixed"); (false, true, "f46fixed"); (true, true, "f9f46fixed")])
             | _ -> "(bad-trace)"
           with Failure m -> "(driver-failure \"" ^ String.escaped m ^ "\")"
              | Not_found -> "(driver-failure not-found)" in
